@@ -23,7 +23,10 @@ impl From<Hand> for Strength {
 impl From<Evaluator> for Strength {
     fn from(e: Evaluator) -> Self {
         let value = e.find_ranking();
-        let kicks = e.find_kickers(value);
+        let kicks = match value {
+            Ranking::Flush(hi) => e.find_kickers_of_flush(hi),
+            _ => e.find_kickers(value),
+        };
         Self::from((value, kicks))
     }
 }
